@@ -1,7 +1,8 @@
 #!/venv/bin/python
 """Evaluation tooling (not a check): re-runs the property checks against the seeded breaking changes kept under seeded/
 with the CURRENT machinery, without touching /repo, /verif/lean or the evidence files.
-usage: reeval.py [<name> ...]      (default: every seeded/<Cxx-Y>)      env REEVAL_EXTRA=1: also run the related checks
+usage: reeval.py [<name> ...]      (default: every seeded/<Cxx-Y>)      env REEVAL_EXTRA=1: also run the related checks;
+env REEVAL_SEEDS="0 1 2": every check is run once per VERIF_SEED and a seed counts as detected only if EVERY run reports it
 Each patch is applied to a scratch copy of /repo; the checks run from a frozen snapshot of the machinery under
 /root/scratch/reeval with NPS_REPO pointing at the patched copy.  Result: seeded/reeval_results.json
 ({name: {applies, suite, detected_by, checks}}) -- a seed whose patch no longer applies to the repaired library is listed
@@ -45,13 +46,20 @@ def main():
         env.pop("VERIF_LEAN_DIR", None); env.pop("VERIF_OUT_DIR", None)
         pid = name.split("-")[0]
         ids = [pid] + (RELATED[pid] if os.environ.get("REEVAL_EXTRA") else [])
+        seeds = os.environ.get("REEVAL_SEEDS", "").split() or [None]
         for cid in ids:
-            rc, out = sh(f"/venv/bin/python {snap}/tools/check.py {cid} quick", snap, env=env)
-            res["checks"][cid] = rc
-            if rc == 1:
+            rcs = []
+            for sd in seeds:
+                e2 = dict(env) if sd is None else {**env, "VERIF_SEED": sd}
+                rc, out = sh(f"/venv/bin/python {snap}/tools/check.py {cid} quick", snap, env=e2)
+                rcs.append(rc)
+                if rc not in (0, 1):
+                    res["checks"][cid + "_tail"] = out[-600:]
+            res["checks"][cid] = rcs[0] if len(rcs) == 1 else rcs
+            if all(rc == 1 for rc in rcs):
                 res["detected_by"].append(cid)
-            elif rc != 0:
-                res["checks"][cid + "_tail"] = out[-600:]
+            elif any(rc == 1 for rc in rcs):
+                res.setdefault("detected_under_some_seeds_only", []).append(cid)
         results[name] = res
         print(name, res["suite"][:40], "detected_by:", res["detected_by"], {k: v for k, v in res["checks"].items() if not k.endswith("_tail")}, flush=True)
         json.dump(results, open(out_path, "w"), indent=1)
